@@ -244,3 +244,41 @@ Definition dtres_eqb (a b : dtres) : bool :=
   end.
 Definition check_dt (v : dt) : bool :=
   negb (dt_valid v) || match parse_dt (dt_chars v) with DtOk v' => dt_eqb v v' | _ => false end.
+
+(* ---------------------------------------------------------------- the second field as the code keeps it
+   parse_date_time stores float('<ss>[.<fraction>]') (correctly rounded binary64, [rnd53]) for a fraction of ANY
+   length; [parse_dt] above works at microsecond resolution and answers DtUnmodelled beyond six digits, so the float
+   is modelled separately: the exact decimal value (numerator, denominator) of the field that follows "Thh:mm:" ... *)
+From SDC Require Import Scalars.Timestamp.
+Fixpoint after_T (l : list ascii) : list ascii :=
+  match l with
+  | [] => []
+  | c :: r => if ceq c "T"%char then r else after_T r
+  end.
+Definition second_field (s : list ascii) : Z * Z :=
+  let r := skipn 6 (after_T s) in
+  let (d, r1) := span is_digit r in
+  match r1 with
+  | c :: r2 => if is_dot c then let (f, _) := span is_digit r2 in (digits_val (d ++ f), 10 ^ len f) else (digits_val d, 1)
+  | [] => (digits_val d, 1)
+  end.
+(* ... and its binary64, for every string that parse_date_time accepts with a time of day.
+   Repaired code (fixes/C18_datetime_second_below_60): a second field such as 59.999999999999999 is below 60 but its
+   nearest binary64 is 60.0, which XsdDateInformation refuses (0.0 <= second < 60.0): a valid lexical form was rejected.
+   The repaired parser takes the largest binary64 below 60 (60 - 2^-47) in that case.  [dt_second_float_old] is the
+   code before the repair. *)
+Definition max_second : Z * Z := (60 * 2 ^ 47 - 1, 2 ^ 47).
+Definition clamp_second (x : Z * Z) : Z * Z := if 60 * snd x <=? fst x then max_second else x.
+Definition dt_second_float (s : string) : option (Z * Z) :=
+  match parse_dt (chars s) with
+  | DtOk (_, _, _, Some _, _, _) | DtUnmodelled =>
+      let x := second_field (chars s) in Some (clamp_second (rnd53 (fst x) (snd x)))
+  | _ => None
+  end.
+Definition dt_second_float_old (s : string) : option (Z * Z) :=
+  match parse_dt (chars s) with
+  | DtOk (_, _, _, Some _, _, _) | DtUnmodelled =>
+      let x := second_field (chars s) in
+      let y := rnd53 (fst x) (snd x) in if 60 * snd y <=? fst y then None else Some y
+  | _ => None
+  end.
